@@ -462,7 +462,8 @@ pub fn big64k(rng: &mut Rng, fmt: Fmt, tag: u64) -> Vec<u8> {
 /// grown buffer is then exactly as long as the record, so its last line end is the last
 /// byte of the full buffer
 pub fn pow2_aligned(rng: &mut Rng, fmt: Fmt, tag: u64) -> Vec<u8> {
-    let k = rng.range(16, 22);
+    // mostly up to 4 MiB; sometimes 8-16 MiB, beyond the 8 MiB threshold of the default policy
+    let k = if rng.chance(1, 10) { rng.range(23, 24) } else { rng.range(16, 22) };
     let target = ((1usize << k) as i64 + rng.range(0, 2) as i64 - 1) as usize;
     let mut out = Vec::with_capacity(target + 4096);
     let n_before = rng.below(4);
